@@ -397,21 +397,46 @@ Definition undo_redo_ok (tt : typetable) (tr : trace tt) : bool :=
       end
   end.
 
-(* 128: the engine's undo list, replayed by the model on the final tables, does not give the start tables;
+(* the same, but cells of formula columns are not compared (the engine recomputes them after the doc actions) *)
+Definition table_equiv_data (tt : typetable) (T : table (EOps tt)) (st : snap_table) : bool :=
+  let '(_, rows, cols) := st in
+  zlist_eqb (t_rows _ T) rows &&
+  Nat.eqb (length (t_cols _ T)) (length cols) &&
+  forallb (fun sc : snap_col =>
+             let '(c, info, vals) := sc in
+             match find_col _ (t_cols _ T) c with
+             | Some C => colinfo_eqb (c_info _ C) info &&
+                         (ci_isformula info || list_eqb ev_enc (map (col_get _ C) rows) vals)
+             | None => false
+             end) cols.
+
+Definition state_equiv_data (tt : typetable) (s : state (EOps tt)) (sn : snapshot) : bool :=
+  Nat.eqb (length s) (length sn) &&
+  forallb (fun st : snap_table =>
+             match find_table _ s (fst (fst st)) with
+             | Some T => table_equiv_data tt T st
+             | None => false
+             end) sn.
+
+(* 128: the engine's undo list, replayed by the model on the final tables, does not give the start tables
+        (2048: not even on schema, row ids and the cells of data columns);
    256: the engine's stored list, replayed on the undone tables (on the start tables when the undo replay is not
-   defined), does not give the final tables *)
+        defined), does not give the final tables (4096: not even on schema, row ids and data cells) *)
 Definition undo_redo_code (tt : typetable) (tr : trace tt) : Z :=
   let redo_from s0 :=
     match replay_doc _ (tr_stored tr) s0 with
-    | Err _ => 256
-    | Ok s1 => if state_equiv tt s1 (tr_final tr) then 0 else 256
+    | Err _ => 256 + 4096
+    | Ok s1 => (if state_equiv tt s1 (tr_final tr) then 0 else 256) +
+               (if state_equiv_data tt s1 (tr_final tr) then 0 else 4096)
     end in
   match replay_doc _ (rev (tr_undo tr)) (state_of_snapshot tt (tr_final tr)) with
-  | Err _ => 128 + redo_from (state_of_snapshot tt (tr_start tr))
-  | Ok s0 => (if state_equiv tt s0 (tr_start tr) then 0 else 128) + redo_from s0
+  | Err _ => 128 + 2048 + redo_from (state_of_snapshot tt (tr_start tr))
+  | Ok s0 => (if state_equiv tt s0 (tr_start tr) then 0 else 128) +
+             (if state_equiv_data tt s0 (tr_start tr) then 0 else 2048) + redo_from s0
   end.
 
-(* monitor of the value laws the theorems assume (ValLaws), on the values that occur in a recorded trace *)
+(* monitor of the value laws the theorems assume (ValLaws), on the values that occur in a recorded trace; the last
+   conjunct is tt_ok of Proofs/ActionLogEnc_laws.v (under which ValLaws is proved for EOps tt) *)
 Definition snapshot_values (sn : snapshot) : list ev :=
   flat_map (fun st : snap_table => flat_map (fun sc : snap_col => snd sc) (snd st)) sn.
 
